@@ -11,8 +11,8 @@
     - The three fixpoints are kept as sets of *facts*: [(A, Some a)] = "a is in the set of A",
       [(A, None)] = "ε ∈ FIRST(A)" resp. "$ ∈ FOLLOW(A)".  A pass walks the productions exactly as
       the Go loops do (per production, per body symbol, break at the first symbol whose FIRST has
-      no ε) in the order of the production list; Go iterates in randomised hash-table order, and
-      C10's theorems show that the result does not depend on the order.  The Go loops run
+      no ε), in the order an oracle prescribes for that pass (Go iterates in randomised
+      hash-table order); C10's theorems hold for every oracle.  The Go loops run
       "until nothing changed", detected by set sizes / flags: here "the number of facts did not
       grow".  The loops run on fuel; exhaustion is the result [None] (a hang), and the
       theorems prove that it never happens.
@@ -88,12 +88,22 @@ Fixpoint nodup_prods (l : list prod) : bool :=
 
 (** * the saturation loop shared by the three fixpoints:
       [for updated := true; updated; { updated = false; pass }] *)
-Fixpoint sat_loop {F : Type} (fuel : nat) (pass : list F -> list F) (s : list F) : option (list F) :=
+Fixpoint sat_loop {F : Type} (fuel : nat) (pass : nat -> list F -> list F) (i : nat) (s : list F)
+  : option (list F) :=
   match fuel with
   | O => None
-  | S k => let s' := pass s in
-           if length s' =? length s then Some s' else sat_loop k pass s'
+  | S k => let s' := pass i s in
+           if length s' =? length s then Some s' else sat_loop k pass (S i) s'
   end.
+
+(** Go walks the productions in the randomised order of its hash tables, a fresh order in every
+    pass of every loop.  The order is an oracle: [o i] is the order of pass [i].  The theorems
+    quantify over all oracles that enumerate exactly the productions ([oracle_ok] in Spec.v);
+    the extracted model runs with [id_oracle] (the order of the production list). *)
+Definition orders := nat -> list prod.
+Record oracle := mkOracle { o_null : orders; o_first : orders; o_follow : orders }.
+Definition id_oracle (G : gram) : oracle :=
+  mkOracle (fun _ => prods G) (fun _ => prods G) (fun _ => prods G).
 
 (** * NullableNonTerminals (cfg.go:344-372) *)
 Definition all_nullable (nu : list nat) (b : list sym) : bool :=
@@ -103,10 +113,10 @@ Definition null_step (nu : list nat) (p : prod) : list nat :=
   if mem (head p) nu then nu
   else if all_nullable nu (body p) then head p :: nu else nu.
 
-Definition null_pass (G : gram) (nu : list nat) : list nat := fold_left null_step (prods G) nu.
+Definition null_pass (l : list prod) (nu : list nat) : list nat := fold_left null_step l nu.
 
-Definition nullable (G : gram) : option (list nat) :=
-  sat_loop (S (length (prods G))) (null_pass G) [].
+Definition nullable (G : gram) (O : oracle) : option (list nat) :=
+  sat_loop (S (length (prods G))) (fun i => null_pass (o_null O i)) 0 [].
 
 (** * ComputeFIRST (cfg.go:935-1006) *)
 Definition set_of (st : list fact) (A : nat) : list (option nat) :=
@@ -140,15 +150,16 @@ Fixpoint first_body (X : nat) (b : list sym) (st : list fact) : list fact :=
       if first_sym_eps st1 Y then first_body X b' st1 else st1
   end.
 
-Definition first_pass (G : gram) (st : list fact) : list fact :=
-  fold_left (fun st p => first_body (head p) (body p) st) (prods G) st.
+Definition first_pass (l : list prod) (st : list fact) : list fact :=
+  fold_left (fun st p => first_body (head p) (body p) st) l st.
 
 Definition body_len_sum (G : gram) : nat := fold_right (fun p n => length (body p) + n) 0 (prods G).
 
 (** at most |heads| · (|terminals in bodies| + 1) facts *)
 Definition first_fuel (G : gram) : nat := S (length (prods G) * S (body_len_sum G)).
 
-Definition first_table (G : gram) : option (list fact) := sat_loop (first_fuel G) (first_pass G) [].
+Definition first_table (G : gram) (O : oracle) : option (list fact) :=
+  sat_loop (first_fuel G) (fun i => first_pass (o_first O i)) 0 [].
 
 (** FIRST(α) for a string, on the final table (the closure returned by ComputeFIRST) *)
 Definition union (l1 l2 : list nat) : list nat := add_all Nat.eqb l2 l1.
@@ -189,13 +200,13 @@ Fixpoint follow_body (fst_tbl : list fact) (A : nat) (b : list sym) (st : list f
       follow_body fst_tbl A beta st2
   end.
 
-Definition follow_pass (G : gram) (fst_tbl : list fact) (st : list fact) : list fact :=
-  fold_left (fun st p => follow_body fst_tbl (head p) (body p) st) (prods G) st.
+Definition follow_pass (l : list prod) (fst_tbl : list fact) (st : list fact) : list fact :=
+  fold_left (fun st p => follow_body fst_tbl (head p) (body p) st) l st.
 
 Definition follow_fuel (G : gram) : nat := S (S (body_len_sum G) * S (body_len_sum G)).
 
-Definition follow_table (G : gram) (fst_tbl : list fact) : option (list fact) :=
-  sat_loop (follow_fuel G) (follow_pass G fst_tbl) [(start G, None)].
+Definition follow_table (G : gram) (O : oracle) (fst_tbl : list fact) : option (list fact) :=
+  sat_loop (follow_fuel G) (fun i => follow_pass (o_follow O i) fst_tbl) 0 [(start G, None)].
 
 (** the closure returned by ComputeFOLLOW *)
 Definition follow_go (G : gram) (fol : list fact) (A : nat) : res (list nat * bool) :=
@@ -296,10 +307,10 @@ Record analysis := mkAnalysis {
   an_table : table;
   an_conflict : bool }.
 
-Definition analyse (G : gram) : option analysis :=
-  match nullable G, first_table G with
+Definition analyse (G : gram) (O : oracle) : option analysis :=
+  match nullable G O, first_table G O with
   | Some nu, Some fi =>
-      match follow_table G fi with
+      match follow_table G O fi with
       | Some fo =>
           let t := table_build G fi fo in
           Some (mkAnalysis nu fi fo (ll1_errors fi fo (prods G)) t (conflicts G t))
@@ -309,17 +320,17 @@ Definition analyse (G : gram) : option analysis :=
   end.
 
 (** the public entry points, as the Go API exposes them *)
-Definition NullableNonTerminals (G : gram) : option (list nat) := nullable G.
+Definition NullableNonTerminals (G : gram) (O : oracle) : option (list nat) := nullable G O.
 
-Definition FIRST (G : gram) (alpha : list sym) : option (res (list nat * bool)) :=
-  match first_table G with
+Definition FIRST (G : gram) (O : oracle) (alpha : list sym) : option (res (list nat * bool)) :=
+  match first_table G O with
   | Some fi => Some (first_str_go G fi alpha [])
   | None => None
   end.
 
-Definition FOLLOW (G : gram) (A : nat) : option (res (list nat * bool)) :=
-  match first_table G with
-  | Some fi => match follow_table G fi with
+Definition FOLLOW (G : gram) (O : oracle) (A : nat) : option (res (list nat * bool)) :=
+  match first_table G O with
+  | Some fi => match follow_table G O fi with
                | Some fo => Some (follow_go G fo A)
                | None => None
                end
@@ -327,9 +338,9 @@ Definition FOLLOW (G : gram) (A : nat) : option (res (list nat * bool)) :=
   end.
 
 (** [Some true] = nil error *)
-Definition IsLL1 (G : gram) : option bool :=
-  match analyse G with Some a => Some (an_ll1_errors a =? 0) | None => None end.
+Definition IsLL1 (G : gram) (O : oracle) : option bool :=
+  match analyse G O with Some a => Some (an_ll1_errors a =? 0) | None => None end.
 
 (** [Some (t, false)] = table with nil error *)
-Definition BuildParsingTable (G : gram) : option (table * bool) :=
-  match analyse G with Some a => Some (an_table a, an_conflict a) | None => None end.
+Definition BuildParsingTable (G : gram) (O : oracle) : option (table * bool) :=
+  match analyse G O with Some a => Some (an_table a, an_conflict a) | None => None end.
